@@ -262,8 +262,9 @@ func (l *c24Log) since(m int) []string {
 }
 
 type c24Handler struct {
-	mu  sync.Mutex
-	evs []string
+	mu      sync.Mutex
+	evs     []string
+	onQuery func(q *serf.Query) // set by the C25 end-to-end query runs
 }
 
 func (h *c24Handler) HandleEvent(e serf.Event) {
@@ -277,6 +278,12 @@ func (h *c24Handler) HandleEvent(e serf.Event) {
 		s = "u:" + hexs(ev.Name) + ":" + hexb(ev.Payload) + ":" + c
 	case *serf.Query:
 		s = "q:" + hexs(ev.Name) + ":" + hexb(ev.Payload)
+		h.mu.Lock()
+		f := h.onQuery
+		h.mu.Unlock()
+		if f != nil {
+			f(ev)
+		}
 	default:
 		return
 	}
